@@ -845,7 +845,7 @@ EDIT_KINDS = ["const", "xconst", "tconst", "tperm", "builtin", "sconst", "nested
               "hidden_target", "prev_const", "guard_move", "deco_arg"]
 
 
-def apply_edit(rng, prog, kind=None, force_var=None):
+def apply_edit(rng, prog, kind=None, force_var=None, force_node=None):
     """Returns (new program, description) or None when the edit kind does not apply."""
     p = copy.deepcopy(prog)
     nodes = p["nodes"]
@@ -854,6 +854,8 @@ def apply_edit(rng, prog, kind=None, force_var=None):
     # plain helpers of the other package are outside the package scope of their callers: never edited
     cand = [i for i in range(len(nodes)) if not (nodes[i]["mod"] == "e" and nodes[i]["kind"] != "memento")]
     rng.shuffle(cand)
+    if force_node is not None:
+        cand = [force_node]
     if kind in ("add_param", "add_call", "remove_call", "retarget_call"):
         cand = [i for i in cand if nodes[i]["kind"] != "product"]  # signature and (empty) call list are the factory's
     elif kind in ("const", "op", "swap"):
